@@ -1207,3 +1207,7 @@ V('c09-pragma-classnames-not-set-up', 'C09', 'C09.R16',
 V('c10-modify-key-default-retargets', 'C10', 'C10.R20',
   ('pywbem_mock/_providerdispatcher.py', "                    if cl_prop.qualifiers.get('key', False):\n                        # Key properties cannot be modified. Setting the\n                        # class default would also change the keybindings\n                        # of the instance path, i.e. which instance is\n                        # modified.\n                        continue\n", ""),
   'copy-retargeted')
+V('c13-null-reference-compared', 'C13', 'C13.R15',
+  ('pywbem_mock/_mainprovider.py', "                if prop.type == 'reference' and prop.value is not None:\n                    # Does this prop instance name match target inst name\n",
+   "                if prop.type == 'reference':\n                    # Does this prop instance name match target inst name\n"),
+  'null-reference-used')
